@@ -617,9 +617,12 @@ def prove_lemma(lem):
         hyps = list(hyps)
         if isinstance(goal, Hinted):
             hyps = hyps + [d for d in goal.defs if d is not True]
+            base = list(hyps)
             for i, l in enumerate(goal.lemmas):
                 jobs.append(('lemma.%s.%s.hint%d' % (lem.name, name, i), solve.to_smt2(c, hyps, l)))
                 hyps = hyps + [l]
+            if goal.final_uses is not None:
+                hyps = base + goal.lemmas[len(goal.lemmas) - goal.final_uses:]
             goal = goal.goal
         jobs.append(('lemma.%s.%s' % (lem.name, name), solve.to_smt2(c, hyps, goal)))
     verdicts = solve.discharge(jobs, timeout_ms=lem.timeout_ms)
